@@ -41,7 +41,7 @@ void build_stream(const Plan &plan, StreamRef &sr) {
       Prng fr(mix64(r.seed, 0xF0)); int np = 2 + (int)fr.below(6);
       for (int i = 0; i < np; i++) { Pkt p; size_t n = 8 + fr.below(300); p.data.resize(n); for (auto &b : p.data) b = (uint8_t)fr.next(); memcpy(p.data.data(), i == 0 ? "fishead" : "fisbone", 7); p.granule = i * 100; foreign.push_back(p); }
     }
-    mp.foreign_mode = (int)lr->i("foreign", 0) > 1 ? (int)lr->i("foreign", 0) : 1;
+    mp.foreign_mode = (int)lr->i("foreign", 0) > 1 ? (int)lr->i("foreign", 0) : 1; mp.foreign_bos_first = (int)lr->i("fbosfirst", 0);
     mux_link(sr.ps, l, mp, foreign.empty() ? nullptr : &foreign, lr->i("fserial", 77000 + (long)sr.ps.links.size()));
     if (r.bs64) { sr.has_bs64 = true; sr.bs64_rewritten = true; }
     if (l->bs0 <= 64) sr.has_bs64 = true;
